@@ -189,6 +189,10 @@ def check_C12(tier, seed):
     q = tier == "quick"
     run_pipeline(res, binary, "leaps", gen_lines=gens.gen_c12(rng, 120 if q else 3000), nshards=8 if q else 16)
     res.notes["rule"] = "vectors: scaled zones with leap tables (one record +-1 at 0/2/3/4) x instants; events: random valid leap tables (<= 40 records, both signs) and the real 27-record table with transitions at/around records; lookups reveal the forward conversion, Skipped entries the inverse"
+    if tier != "quick":
+        # the forward leap scan and the (repaired) inverse conversion for a table of ANY length agree with the physical reading of the
+        # records: machine-checked proofs (TLAPS); without the repair of 9d809bc the inverse's proof fails
+        res.notes["tlaps_unbounded_proofs"] = [C.run_tlapm("proofs/LeapScan.tla"), C.run_tlapm("proofs/LeapInverse.tla")]
     return res.finish()
 
 
